@@ -583,7 +583,10 @@ pub fn check(req: &Req, ent: &EntSpec, obs: &ServeObs, m: &Model, out: &mut Vec<
         out.push(f(&["C13", "C07"], "horizon", "body did not terminate within the poll horizon"));
     }
     // ---- terminated bodies stay terminated (C20) -------------------------------------
-    if let Some(t) = term {
+    // Premise of the statement: the entity's own streams stay finished once they have failed. A
+    // script that goes on after its own `Err` does not (C12's end flag is still judged on it).
+    let keeps_going_after_err = ent.scripts.iter().any(|s| s.evs.iter().position(|e| *e == Ev::Err).map(|p| p + 1 < s.evs.len()).unwrap_or(false));
+    if let Some(t) = term.filter(|_| !keeps_going_after_err) {
         for (i, (_, o)) in obs.body.steps.iter().enumerate().skip(t + 1) {
             // "data" = bytes: an empty frame carries none.
             if o.data_len() > 0 {
@@ -921,6 +924,26 @@ fn check_shape(req: &Req, ent: &EntSpec, obs: &ServeObs, m: &Model, shape: &Shap
     // ---- C12: hints and end flag, for contract-honouring entities ------------------------
     if fa == Fate::Clean {
         check_hints(&obs.body, true, out);
+    } else if fa == Fate::EntErr {
+        // An entity whose stream reports a failure of its own (an I/O error) before it has
+        // delivered the range still honours the length contract: the end-of-stream flag must stay
+        // truthful (no hint bounds are claimed for a body that does not end cleanly). Not judged
+        // for a failure *after* the last byte: there the flag is legitimately up (nothing is owed)
+        // while C07 wants the late failure surfaced -- the statements pull in opposite directions
+        // and C12 restricts itself to entities that honour their contract.
+        check_end_flag(&obs.body, out);
+    }
+}
+
+/// The end-of-stream half of the C12 monitor: once the flag was true, no bytes and no error.
+pub fn check_end_flag(t: &BodyTrace, out: &mut Vec<Finding>) {
+    for (i, (s, _)) in t.steps.iter().enumerate() {
+        if s.is_end {
+            if let Some((k, (_, o))) = t.steps[i..].iter().enumerate().find(|(_, (_, o))| o.data_len() > 0 || matches!(o, Obs::Err(_) | Obs::Panic(_))) {
+                out.push(f(&["C12"], "is-end-lie", format!("is_end_stream() was true before poll {i}, yet poll {} returned {}", i + k, o.kind())));
+                return;
+            }
+        }
     }
 }
 
@@ -954,7 +977,7 @@ pub fn check_hints(t: &BodyTrace, exact: bool, out: &mut Vec<Finding>) {
         }
         if s.is_end {
             let later = &t.steps[i..];
-            if let Some((k, (_, o))) = later.iter().enumerate().find(|(_, (_, o))| o.data_len() > 0 || matches!(o, Obs::Err(_))) {
+            if let Some((k, (_, o))) = later.iter().enumerate().find(|(_, (_, o))| o.data_len() > 0 || matches!(o, Obs::Err(_) | Obs::Panic(_))) {
                 out.push(f(&["C12"], "is-end-lie", format!("is_end_stream() was true before poll {i}, yet poll {} returned {}", i + k, o.kind())));
                 break;
             }
